@@ -250,6 +250,10 @@ example : Legal .uint2 [5] 2 [0, 1, 2, 3, 1] (.torch .uint2 [5] [0, 1, 2, 3, 1])
 -- a torch view at storage offset 2 of a 7-element storage
 example : Legal .uint8 [3] 8 [5, 6, 7] (.torch .uint8 [3] (torchView ([1, 2] ++ [5, 6, 7] ++ [9, 9]) 2 3)) :=
   Legal.torchView [1, 2] [5, 6, 7] [9, 9] (by decide) (by decide) (by decide)
+-- an array with an explicit non-native byte order never yields bytes in memory (big-endian) order:
+-- the constructor rejects it (the only other answer the check accepts is the little-endian bytes)
+example : (Rep.arrayBE .float [1] [0x3F800000]).tobytes = .error "TypeError" := rfl
+example : (Rep.array .float [1] [0x3F800000]).tobytes = .ok [0x00, 0x00, 0x80, 0x3F] := rfl
 -- and the conclusions are not trivially true: the model answers concrete bytes
 example : (Rep.proto { dataType := 22, dims := [3], int32Data := [127, -248] }).numpy = .ok [15, 7, 8] := rfl
 example : (Rep.external { dtype := .uint2, dims := [5], offset := some 1, length := none } (some [7, 0xE4, 0x01])).numpy
